@@ -166,7 +166,10 @@ def l1_cases(r, tier):
 
 # =================================================================== L2
 
-AGGS = ['Sum', 'Min', 'Max', 'Avg', 'Count', 'List', 'Set', 'ArgMin', 'ArgMax', 'ArgMinK', 'ArgMaxK', 'Array']
+AGGS = ['Sum', 'Min', 'Max', 'Avg', 'Count', 'List', 'Set', 'ArgMin', 'ArgMax', 'ArgMinK', 'ArgMaxK', 'Array',
+        'Comb', 'CombL', 'Comb2', 'Multi']
+# Comb*: combine expressions in a rule body whose aggregated value is bound OUTSIDE the combine;
+# Multi: several aggregates in one head. Their results are per source row / per group records.
 
 
 def gen_table(r):
@@ -179,6 +182,28 @@ def gen_table(r):
     a = 'a%d' % i if r.random() < 0.8 else r.choice(['x', 'y'])
     rows.append([k, a, vs_[i], r.choice([0, 1, 1, 2, 3])])
   return rows
+
+
+def reference_rows(rows, agg):
+  """Row-set reference for the predicates that are not one value per group."""
+  out = []
+  if agg == 'Comb':
+    for k, a, v, w in rows:
+      out.append([k, a, v * (w + 1)])
+  elif agg == 'CombL':
+    for k, a, v, w in rows:
+      out.append([k, a, [a] * (w + 1)])
+  elif agg == 'Comb2':
+    for k, a, v, w in rows:
+      out.append([k, a, v * (w + 1), w + 1])
+  elif agg == 'Multi':
+    groups = {}
+    for k, a, v, w in rows:
+      groups.setdefault(k, []).append((v, w))
+    for k, g in groups.items():
+      out.append([k, sum(v for v, _ in g), max(v for v, _ in g), len({w for _, w in g}),
+                  sorted(w for _, w in g)])
+  return sorted(out, key=repr)
 
 
 def reference_l2(rows, agg, kk):
@@ -224,6 +249,14 @@ def agg_rule(agg, src, kk, src2=None):
     last = lines[-1]
     return '\n'.join(lines + [last.replace('%s(k:, a:, v:, w:)' % src, '%s(k:, a:, v:, w:)' % src2)])
   body = '%s(k:, a:, v:, w:)' % src
+  if agg == 'Comb':
+    return 'TComb(k, a, s) :- %s, s += (v :- x in Range(w + 1));' % body
+  if agg == 'CombL':
+    return 'TCombL(k, a, l) :- %s, l List= (a :- x in Range(w + 1));' % body
+  if agg == 'Comb2':
+    return 'TComb2(k, a, s, n) :- %s, s += (v :- x in Range(w + 1)), n += (1 :- x in Range(w + 1));' % body
+  if agg == 'Multi':
+    return 'TMulti(k:, s? += v, m? Max= v, c? Count= w, l? List= w) distinct :- %s;' % body
   if agg == 'Sum':
     return 'TSum(k) += v :- %s;' % body
   if agg == 'Min':
@@ -271,8 +304,55 @@ def gen_scalars(r, n):
   for _ in range(n):
     f = r.choice(['Range', 'Size', 'Element', 'Subscript', 'Sort', 'ArrayConcat', 'Concat', 'Join',
                   'Split', 'ToString', 'ToInt64', 'Least', 'Greatest', 'Plus', 'Minus', 'Times',
-                  'SizeRange', 'InFilter', 'Cmp', 'Empty', 'Empty'])
-    if f == 'Empty':
+                  'SizeRange', 'InFilter', 'Cmp', 'Empty', 'Empty', 'Boundary', 'Boundary', 'Compose'])
+    if f == 'Boundary':
+      which = r.choice(['LastElement', 'LastSubscript', 'SortStr', 'InStr', 'EqualLeast', 'EqualGreatest',
+                        'RoundTripInt', 'RoundTripStr', 'OneElementSort', 'OneElementJoin', 'NegTimes',
+                        'SortDup', 'NumLikeStrings'])
+      l = r.choice([x for x in lists if x])
+      if which == 'LastElement':
+        cells.append(['Element', 'Element(%s, %d)' % (lit(l), len(l) - 1), l[-1]])
+      elif which == 'LastSubscript':
+        cells.append(['Subscript', ('Where', 'l[%d]' % (len(l) - 1), 'l == %s' % lit(l)), l[-1]])
+      elif which == 'SortStr':
+        sl = r.choice([['b', 'a', 'c'], ['b', 'B', 'a'], ['10', '9', '1'], ['x', '']])
+        cells.append(['Sort', 'Sort(%s)' % lit(sl), sorted(sl)])
+      elif which == 'InStr':
+        sl = r.choice([['b', 'a', 'c'], ['x', ''], ['10', '9']])
+        cells.append(['InFilter', ('List', 'x', 'x in %s' % lit(sl)), sorted(sl)])
+      elif which == 'EqualLeast':
+        a = r.choice(ints)
+        cells.append(['Least', 'Least(%s, %s)' % (lit(a), lit(a)), a])
+      elif which == 'EqualGreatest':
+        a = r.choice(ints)
+        cells.append(['Greatest', 'Greatest(%s, %s, %s)' % (lit(a), lit(a), lit(a)), a])
+      elif which == 'RoundTripInt':
+        a = r.choice(ints)
+        cells.append(['ToInt64', 'ToInt64(ToString(%s))' % lit(a), a])
+      elif which == 'RoundTripStr':
+        a = r.choice(ints)
+        cells.append(['ToString', 'ToString(ToInt64(%s))' % lit(str(a)), str(a)])
+      elif which == 'OneElementSort':
+        cells.append(['Sort', 'Sort([7])', [7]])
+      elif which == 'OneElementJoin':
+        cells.append(['Join', 'Join(["solo"], ", ")', 'solo'])
+      elif which == 'NegTimes':
+        a, b = r.choice([-1, -4]), r.choice([-1, -4, 3])
+        cells.append(['Times', '%s * %s' % (lit(a), lit(b)), a * b])
+      elif which == 'SortDup':
+        cells.append(['Sort', 'Sort([2, 1, 2, 1])', [1, 1, 2, 2]])
+      else:
+        cells.append(['Concat', '"1" ++ "2"', '12'])
+    elif f == 'Compose':
+      # the same list text through several built-ins of one program: a built-in must not
+      # disturb what another one sees
+      l = r.choice([x for x in lists if len(x) >= 2])
+      cells.append(['Sort', 'Sort(%s)' % lit(l), sorted(l)])
+      cells.append(['Join', 'Join(%s, "-")' % lit(l), '-'.join(map(str, l))])
+      cells.append(['ArrayConcat', 'ArrayConcat(%s, [0])' % lit(l), l + [0]])
+      cells.append(['Element', 'Element(%s, 0)' % lit(l), l[0]])
+      cells.append(['Size', 'Size(ArrayConcat(%s, %s))' % (lit(l), lit(l)), 2 * len(l)])
+    elif f == 'Empty':
       # the empty list (written Range(0)) through every list built-in, and zero
       sep = r.choice([',', '', '--'])
       which = r.choice(['Join', 'JoinConcat', 'Sort', 'ConcatL', 'ConcatR', 'ConcatBoth', 'In', 'SizeSort',
@@ -443,6 +523,20 @@ def run_l2(case, scratch):
       return vs
     for agg in case['aggs']:
       hdr, rows = res['T' + agg]
+      if agg in ('Comb', 'CombL', 'Comb2', 'Multi'):
+        got_rows = []
+        for row in rows:
+          row = [decode(x) for x in row]
+          if agg == 'Multi':
+            row[4] = sorted(row[4]) if isinstance(row[4], list) else row[4]
+          got_rows.append(row)
+        got_rows = sorted(got_rows, key=repr)
+        want_rows = reference_rows(case['rows'], agg)
+        if got_rows != want_rows:
+          vs.append({'class': 'wrong-aggregate', 'key': agg,
+                     'message': '%s over rows %s (mode %s, index %s) returned %s, defined value %s' % (
+                         agg, case['rows'], case['mode'], case.get('index'), got_rows, want_rows)})
+        continue
       want = reference_l2(case['rows'], agg, case['kk'])
       got = {}
       for row in rows:
